@@ -26,7 +26,7 @@ from ..mir import fmt, walk, const_val
 from . import aead
 
 EXPLANATION = __doc__
-TECHNIQUE = "MSB-algebra truth tables of inlined term-domain formulas, ordering algebra over {<,=,>}, OR-fold / iterator-coverage rules, interval induction of the byte borrow chain"
+TECHNIQUE = "MSB-algebra truth tables of inlined term-domain formulas, ordering algebra over {<,=,>}, OR-fold / iterator-coverage rules, interval induction of the byte borrow chain; bounded shape evaluation of the aggregate helpers against the word primitive"
 
 CT = "constant_time::"
 INL = lambda n: n.startswith("<") and "constant_time::Ct" in n or n.startswith("constant_time::Choice::")
